@@ -139,6 +139,14 @@ func c09Extras(r *fw.Rand, i int) []gen.NodeSpec {
 		ex = append(ex, gen.NodeSpec{Path: "scripts/readonly.txt", Kind: "file", Mode: 0444, Content: "ro", Mtime: 1400000001})
 		ex = append(ex, gen.NodeSpec{Path: "scripts/private.key", Kind: "file", Mode: 0600, Content: "k", Mtime: 1400000002, MtimeNs: 500000000})
 	}
+	if r.Chance(1, 2) {
+		ex = append(ex, gen.NodeSpec{Path: "readonly", Kind: "dir", Mode: 0555, Mtime: 1500000010})
+		ex = append(ex, gen.NodeSpec{Path: "readonly/f.tf", Kind: "file", Mode: 0444, Content: "ro", Mtime: 1400000010})
+		ex = append(ex, gen.NodeSpec{Path: "readonly/nested", Kind: "dir", Mode: 0500, Mtime: 1500000011})
+		ex = append(ex, gen.NodeSpec{Path: "readonly/nested/g.tf", Kind: "file", Mode: 0400, Content: "g", Mtime: 1400000011})
+		ex = append(ex, gen.NodeSpec{Path: "group-writable", Kind: "dir", Mode: 0775, Mtime: 1500000012})
+		ex = append(ex, gen.NodeSpec{Path: "group-writable/w.tf", Kind: "file", Mode: 0664, Content: "w", Mtime: 1400000012})
+	}
 	if r.Chance(1, 3) {
 		ex = append(ex, gen.NodeSpec{Path: ".terraform/modules/m/main.tf", Kind: "file", Mode: 0644, Content: "vendored", Mtime: 1400000003})
 		ex = append(ex, gen.NodeSpec{Path: "a b/ü c.tf", Kind: "file", Mode: 0644, Content: "odd name", Mtime: 1400000004})
@@ -156,6 +164,13 @@ func c09Run(env *fw.Env, idx int) fw.Result {
 			extrasByContent[cid] = c09Extras(r, i)
 		}
 		w.Remotes[i].Extras = extrasByContent[cid]
+		// metadata without a commit id: Close, OpenDir and ExtractArchive must still agree
+		switch r.Intn(6) {
+		case 0:
+			w.Remotes[i].MetaMode = "message-only"
+		case 1:
+			w.Remotes[i].MetaMode = "empty"
+		}
 	}
 	c := computeClosure(&w)
 	desc := worldDesc(&w)
@@ -257,7 +272,7 @@ func init() {
 	fw.Register(&fw.Property{
 		ID:    "C09",
 		Level: "exploration",
-		Rule: "bundles are built from PRNG worlds whose addresses exercise queries, ref arguments, ports, %-escapes and sub-paths, with aliasing packages, several versions per registry package, deprecations, commit metadata, and packages containing links to files, empty directories, modes 0444/0755/0600/0750, vendored .terraform/modules content and spaced / non-ASCII names. " +
+		Rule: "bundles are built from PRNG worlds whose addresses exercise queries, ref arguments, ports, %-escapes and sub-paths, with aliasing packages, several versions per registry package, deprecations, commit metadata, and packages containing links to files, empty directories, file modes 0444/0755/0600/0664/0400, directory modes 0750/0555/0500/0775, fetcher metadata with and without a commit id, vendored .terraform/modules content and spaced / non-ASCII names. " +
 			"For b0 = Close(), b1 = OpenDir(dir), b2 = ExtractArchive(WriteArchive(b0)) a sweep over all accessors (incl. every lookup relative to the root and SourceForLocalPath of every path) must print identically, twice for b0, and the two directory trees must agree on paths, kinds, contents, permission bits and link targets. non-trivial = the world built; distinct = world x package extras",
 		Assumptions: []string{"modification times of the extracted copy are not compared (the statement lists files, not times)"},
 		Phases: []*fw.Phase{{
